@@ -14,7 +14,11 @@
    answer:  what Model/CrashDb.read_db reports on the store built by the history (store_of) after the system calls
             of the first j record-level effects of op under the temporary+rename protocol (crash_fs):
             ok#n,v,flavor,dir,tag+tag;...#n,tag,flavor,v;...   one row per declaration with the tags that point at
-            it, then every tag assignment;  or reader-raises *)
+            it, then every tag assignment;  or reader-raises
+   line:  helper <TAB> place(same|other) <TAB> n
+   answer:  the kinds of the system calls that Model/CrashXdev.lower_atomic_at performs on the target name (not on the
+            temporary one) for one write of an n-line record, in order, joined by ',':  rename  when the temporary
+            file is on the target's file system;  open,write*n,close  when it is not *)
 let dec_lines (s : Stdlib.String.t) = dec_list ',' dec_str s
 let enc_lines l = enc_list ',' enc_str l
 
@@ -109,6 +113,14 @@ let handle (f : Stdlib.String.t array) : Stdlib.String.t =
     let lower = if f.(1) = "atomic" then lower_atomic else lower_inplace in
     enc_fs (crash_state lower (dec_fs f.(2)) (Stdlib.List.map dec_effect (split_sep ';' f.(3)))
               (nat_of_int (int_of_string f.(4))))
+  | "helper" ->
+    let place = (match f.(1) with "same" -> SameFs | "other" -> OtherFs | _ -> failwith "bad place") in
+    let n = int_of_string f.(2) in
+    let rec lines i = if i <= 0 then [] else dec_str "x" :: lines (i - 1) in
+    let kinds = target_kinds place (EWrite (dec_str "ups_db/cache", lines n)) in
+    Stdlib.String.concat "," (Stdlib.List.map (function
+      | KOpen -> "open" | KWrite -> "write" | KClose -> "close" | KRename -> "rename" | KUnlink -> "unlink"
+      | KMkdir -> "mkdir" | KRmdir -> "rmdir") kinds)
   | _ -> failwith "unknown op"
 
 let () = main_loop handle
